@@ -82,12 +82,20 @@ pub struct RcParams3 {
 impl RcParams3 {
     pub fn from_initial(initial: &Iso3, rc: &Point3) -> Self {
         let rc_d = initial * rc;
-        let rotations = RotationMatrices::from_rotation(&initial.rotation);
-        let x = T3Storage::new(0.0, 0.0, 0.0, rotations.r.x, rotations.r.y, rotations.r.z);
+
+        // The parameters describe the motion applied on top of the initial transformation, whose
+        // rotation is folded into the first shift, so they start at exactly zero. When they
+        // started at the Euler angles of the initial rotation, a nearly-identity initial
+        // transformation gave a parameter vector that was tiny but not zero; the
+        // Levenberg-Marquardt solver sizes its first trust region from the norm of the starting
+        // parameters, took a minute first step, and reported convergence without moving.
+        let rotations = RotationMatrices::from_euler(0.0, 0.0, 0.0);
+        let x = T3Storage::zeros();
 
         let mut item = Self {
             rc: *rc,
-            shift0: Iso3::translation(-rc.x, -rc.y, -rc.z),
+            shift0: Iso3::from_parts(Translation3::identity(), initial.rotation)
+                * Iso3::translation(-rc.x, -rc.y, -rc.z),
             shift1: Iso3::translation(rc_d.x, rc_d.y, rc_d.z),
             x,
             transform: Iso3::identity(),
